@@ -73,7 +73,7 @@ def check_property(prop, tier, assumptions):
         if "exhaustive=0" in res["job"]:
             exhaustive = False
         for f in res["findings"]:
-            if f["prop"] != prop:
+            if prop not in f["prop"].split(","):
                 continue
             key = f["sig"]
             if key not in found:
